@@ -68,7 +68,7 @@ Proof.
   all: destruct ((e_kind e =? 3) || negb (outer_opens (kc (ens c)) (e_state e))); [split; [discriminate|reflexivity]|].
   all: destruct (wrong_epoch (kc (ens c)) e);
     [|destruct (forged_here (ens c) e (k_rec_epoch (kc c)) Hk Hb Ha) as [H1 H2]; split; [exact H1|rewrite H2; reflexivity]].
-  all: destruct (is_better (ens c) (e_epoch e) (e_ts e) (e_key e)).
+  all: destruct (is_commit_kind e && is_better (ens c) (e_epoch e) (e_ts e) (e_key e)).
   all: try (split; [|rewrite msgs_late; reflexivity];
             unfold late; destruct (dget (e_id e) (dedup (ens c))) as [d|]; [destruct (d_state d =? PS_COMMIT)|]; discriminate).
   all: destruct (find_snap (e_epoch e) (queue (ens c))) as [s|]; [|split; [discriminate|reflexivity]].
@@ -81,3 +81,57 @@ Qed.
 Lemma forged_never_stored : forall c e, e_kind e = 1 -> e_bad e = 7 -> e_author e <> me c ->
   snd (deliver c e) <> RApp /\ map fst (msgs (fst (deliver c e))) = map fst (msgs c).
 Proof. intros c e. unfold deliver. apply forged_process. Qed.
+
+(* ================================================================ C07 after the repair: only commits are MIP-03 candidates *)
+Section OnlyCommitsRollBack.
+
+  (* an event that is not a commit never takes the rollback arm *)
+  Lemma only_commits_roll_back : forall c e, is_commit_kind e = false -> rollbacks (fst (deliver c e)) = rollbacks c.
+  Proof.
+    intros c e Ek. unfold deliver. rewrite process_unfold.
+    destruct (blockedb c e); [reflexivity|].
+    destruct ((e_kind e =? 3) && (e_bad e <? 2)); [reflexivity|].
+    destruct ((e_kind e =? 3) && (e_bad e =? 2)); [reflexivity|].
+    destruct (negb (k_active (kc c))); [reflexivity|].
+    cbv zeta.
+    destruct ((e_kind e =? 3) || negb (outer_opens (kc (ens c)) (e_state e))); [reflexivity|].
+    destruct (wrong_epoch (kc (ens c)) e); [|rewrite rb_here; reflexivity].
+    rewrite Ek. cbn [andb]. rewrite rb_late. reflexivity.
+  Qed.
+
+  Lemma proj_sync c : Inv c -> k_active (kc c) = true -> proj (sync c) = proj c.
+  Proof. intros H Ha. rewrite sync_fix; [reflexivity|]. exact (proj1 H Ha). Qed.
+
+  (* a proposal of another epoch is refused (or, if a ProcessedCommit record exists under its number, acknowledged) in the
+     WrongEpoch arm: no rollback, no change of the observable projection, snapshot queue untouched *)
+  Lemma late_proposal_no_effect : forall c e, Inv c -> e_kind e = 2 -> e_epoch e <> k_epoch (kc c) ->
+    proj (fst (deliver c e)) = proj c /\ queue (fst (deliver c e)) = queue c.
+  Proof.
+    intros c e Hinv K2 Hep. unfold deliver. rewrite process_unfold.
+    destruct (blockedb c e); [split; reflexivity|].
+    destruct ((e_kind e =? 3) && (e_bad e <? 2)); [split; reflexivity|].
+    destruct ((e_kind e =? 3) && (e_bad e =? 2)); [split; reflexivity|].
+    destruct (k_active (kc c)) eqn:Hact; cbn [negb]; [|split; reflexivity].
+    cbv zeta.
+    destruct ((e_kind e =? 3) || negb (outer_opens (kc (ens c)) (e_state e))); [split; [exact (proj_ens c)|reflexivity]|].
+    assert (wrong_epoch (kc (ens c)) e = true) as ->.
+    { unfold wrong_epoch. rewrite K2. change (2 =? 1) with false. cbv iota. cbn [ens set_core kc]. rewrite es_epoch.
+      destruct (N.eqb_spec (e_epoch e) (k_epoch (kc c))) as [E|_]; [contradiction|reflexivity]. }
+    rewrite (is_commit_kind_2 e K2). cbn [andb].
+    unfold late. destruct (dget (e_id e) (dedup (ens c))) as [d|]; [|split; [exact (proj_ens c)|reflexivity]].
+    destruct (d_state d =? PS_COMMIT); [|split; [exact (proj_ens c)|reflexivity]].
+    cbn [fst]. split; [|reflexivity].
+    rewrite proj_sync; [exact (proj_ens c)|exact (Inv_ens c Hinv)|].
+    cbn [ens set_core kc]. rewrite es_active. exact Hact.
+  Qed.
+
+  (* re-delivering a queued proposal at any later point of a run in which the client has moved to another epoch *)
+  Lemma queued_proposal_later_epoch : forall c e ops, Inv c -> queue_wf c -> e_kind e = 2 ->
+    let c' := erun (fst (deliver c e)) ops in
+    e_epoch e <> k_epoch (kc c') -> proj (fst (deliver c' e)) = proj c'.
+  Proof.
+    intros c e ops Hinv _ K2 c' Hep.
+    apply (late_proposal_no_effect c' e); [|exact K2|exact Hep].
+    apply inv_erun. apply inv_deliver. exact Hinv.
+  Qed.
+End OnlyCommitsRollBack.
